@@ -844,14 +844,16 @@ def check_C12(rep):
 # ---------------------------------------------------------------------------
 # persistence stages (commit / drop cache / crash events inside container histories) and multi-run acceptor
 
-def persist_stages(rep, prefix, cfgname, what, arrays=True, maps=True):
+def persist_stages(rep, prefix, cfgname, what, arrays=True, maps=True, index0=0):
+    """index0: the ledger hands out slab indexes above it (identifiers straddling the 255 / 256 byte boundary in short histories)."""
     quick = rep.tier == "quick"
+    hx = {"index0": index0} if index0 else {}
     if arrays:
         consts = {"EmitEdges": "TRUE", "MaxElems": 3 if quick else 4, "T": 256, "Persist": "TRUE"}
         den = 8 if quick else 2
         files, n, total = model_histories(rep, "MC_Array.tla", "MC_Array.cfg", consts,
                                           "MC_Array with commit/drop-cache/crash events, MaxElems=%d" % consts["MaxElems"],
-                                          {"cfg": {"T": 256}}, lambda ops, key: frac(key + rep.seed, 1, den), prefix + "-mcp")
+                                          {"cfg": dict({"T": 256}, **hx)}, lambda ops, key: frac(key + rep.seed, 1, den), prefix + "-mcp")
         base = len(rep.distinct)
         rep.distinct.update(range(base, base + n))
         hist_stage(rep, prefix + "-array-edges", ["array-run"], "array", "ArrayTrace.tla", "ArrayTrace_%s.cfg" % cfgname, files, "edge", what)
@@ -862,7 +864,7 @@ def persist_stages(rep, prefix, cfgname, what, arrays=True, maps=True):
             wf, wn = sim_histories(rep, "MC_Array.tla", "MC_Array_sim.cfg",
                                    {"T": T, "Sizes": sizes, "WithReads": "FALSE", "AllowPop": "FALSE", "MaxElems": 100000, "Persist": "TRUE",
                                     "GrowUntil": depth // 3, "ShrinkFrom": depth - depth // 3 - 10},
-                                   "MC_Array T=%d with persistence events" % T, {"cfg": {"T": T}}, nm, num, depth)
+                                   "MC_Array T=%d with persistence events" % T, {"cfg": dict({"T": T}, **hx)}, nm, num, depth)
             base = len(rep.distinct)
             rep.distinct.update(range(base, base + wn))
             hist_stage(rep, nm, ["array-run"], "array", "ArrayTrace.tla", "ArrayTrace_%s.cfg" % cfgname, wf, "full", what)
@@ -874,7 +876,7 @@ def persist_stages(rep, prefix, cfgname, what, arrays=True, maps=True):
             wf, wn = sim_histories(rep, "MC_MapWalk.tla", "MC_MapWalk.cfg",
                                    {"Keys": keyset(nkeys), "DigMode": '"%s"' % mode, "KSz": ksz, "VSizes": vs, "Persist": "TRUE",
                                     "GrowUntil": depth // 3, "ShrinkFrom": depth - depth // 3},
-                                   "MC_MapWalk T=%d %d keys with persistence events" % (T, nkeys), {"cfg": {"T": T, "limit": 255}}, nm, num, depth)
+                                   "MC_MapWalk T=%d %d keys with persistence events" % (T, nkeys), {"cfg": dict({"T": T, "limit": 255}, **hx)}, nm, num, depth)
             base = len(rep.distinct)
             rep.distinct.update(range(base, base + wn))
             hist_stage(rep, nm, ["map-run"], "map", "MapTrace.tla", "MapTrace_%s.cfg" % cfgname, wf, "full", what)
@@ -1516,7 +1518,11 @@ def check_C16(rep):
             if not r.ok:
                 raise Inconclusive("PreloadConc %s failed in the MODEL: %s" % (c, r.out[-1500:]))
             rep.add_model("PreloadConc W=%d NJobs=%d ReadFail=%d DecErr=%d (all interleavings, liveness)" % (c[0], nj, c[1], c[2]), r)
-            pscheds.update(lines)
+            for s in lines:
+                j = json.loads(s)
+                # each schedule with an empty read cache and with two slabs cached beforehand (the model's PreCached)
+                pscheds.add(json.dumps(dict(j, pre=0)))
+                pscheds.add(json.dumps(dict(j, pre=2)))
     # non-vacuity of the model: with the two deferred steps in the opposite order TLC must find the deadlock
     _, rdead, _ = run_pre((2, 0, 0), order="fifo", emit=False)
     if "Deadlock reached" not in rdead.out and "Temporal properties were violated" not in rdead.out:
@@ -1525,7 +1531,7 @@ def check_C16(rep):
     pall = sorted(pscheds)
     for (w, n) in ((2, 6), (4, 13)) if quick else ((2, 6), (4, 13), (7, 40)):
         for (rf, de) in ((0, 0), (1, 0), (n, 0), (n + 3, 0), (0, 1), (0, n)):
-            pall.append(json.dumps({"w": w, "n": n, "readfail": rf, "decerr": de, "order": []}))
+            pall.append(json.dumps({"w": w, "n": n, "readfail": rf, "decerr": de, "order": [], "pre": (n // 2) if rf == 0 else 0}))
     pfiles = [os.path.join(vlib.scratch(), "c16-psched-%d.ndjson" % k) for k in range(PARTS)]
     fh = [open(f, "w") for f in pfiles]
     for f in fh:
@@ -1767,7 +1773,8 @@ def check_C04(rep):
     files, n, total = storage_histories(rep, 3, sel, "c04-mc3")
     rep.distinct.update(range(n))
     storage_stage(rep, "c04-storage", "SlabStorageTrace_C04.cfg", files, "full")
-    persist_stages(rep, "c04", "C04", "deterministic commit issues calls out of (owner, index) order", arrays=True, maps=True)
+    # slab indexes start at 250: commits touch identifiers on both sides of the one-byte boundary (255 / 256)
+    persist_stages(rep, "c04", "C04", "deterministic commit issues calls out of (owner, index) order", arrays=True, maps=True, index0=250)
     variants = [V_REF,
                 {"name": "2-workers", "sched": "end", "mode": "det", "workers": 2, "faults": 0},
                 {"name": "7-workers-random-schedule", "sched": "end", "mode": "det", "workers": 7, "faults": 0},
